@@ -34,6 +34,7 @@ pub struct Case {
     pub name: String,
     pub bases: Vec<Option<Box<dyn FileSystem>>>,
     pub tmpdirs: Vec<PathBuf>,
+    pub embfiles: Vec<(String, Vec<u8>)>,
     pub roots: Vec<VfsPath>,
     pub handles: HashMap<usize, Handle>,
     pub set_times: HashSet<i128>,
@@ -50,6 +51,7 @@ impl Case {
             name: name.to_string(),
             bases: vec![],
             tmpdirs: vec![],
+            embfiles: vec![],
             roots: vec![],
             handles: HashMap::new(),
             set_times: HashSet::new(),
@@ -459,6 +461,28 @@ pub fn config_line(cur: &mut Case, toks: &[&str]) -> bool {
             cur.bases.push(Some(Box::new(PhysicalFS::new(&d))));
             cur.tmpdirs.push(d);
         }
+        // a directory found on disk whose files are all reached through symbolic links (their targets live outside
+        // the served root): every call follows them, so the filesystem behaves as if the files were there
+        ["embfile", p, b] => cur.embfiles.push((String::from_utf8(unhex(p)).unwrap(), unhex(b))),
+        ["base", "physlnk"] => {
+            let n = COUNTER.fetch_add(1, std::sync::atomic::Ordering::SeqCst);
+            let d = std::env::temp_dir().join(format!("vfsx_{}_{}", std::process::id(), n));
+            let hidden = std::env::temp_dir().join(format!("vfsx_{}_{}_targets", std::process::id(), n));
+            for x in [&d, &hidden] {
+                let _ = std::fs::remove_dir_all(x);
+                std::fs::create_dir_all(x).unwrap();
+            }
+            for (i, (rel, data)) in cur.embfiles.drain(..).enumerate() {
+                let at = d.join(rel.trim_start_matches('/'));
+                std::fs::create_dir_all(at.parent().unwrap()).unwrap();
+                let target = hidden.join(format!("t{}", i));
+                std::fs::write(&target, data).unwrap();
+                std::os::unix::fs::symlink(&target, &at).unwrap();
+            }
+            cur.bases.push(Some(Box::new(PhysicalFS::new(&d))));
+            cur.tmpdirs.push(d);
+            cur.tmpdirs.push(hidden);
+        }
         ["fs", "base", i] => {
             let b = cur.bases[i.parse::<usize>().unwrap()].take().expect("base used twice");
             let r = cur.wrap(b);
@@ -521,11 +545,17 @@ fn main() {
                 cur.cleanup();
                 cur = Case::new(n, sort);
             }
-            ["embfile", ..] => {}
-            ["base", "emb"] => cur.bases.push(Some(Box::new(EmbeddedFS::<Emb1>::new()))),
+            ["base", "emb"] => {
+                cur.embfiles.clear();
+                cur.bases.push(Some(Box::new(EmbeddedFS::<Emb1>::new())))
+            }
             // the other public constructor
-            ["base", "embd"] => cur.bases.push(Some(Box::new(<EmbeddedFS<Emb1> as Default>::default()))),
+            ["base", "embd"] => {
+                cur.embfiles.clear();
+                cur.bases.push(Some(Box::new(<EmbeddedFS<Emb1> as Default>::default())))
+            }
             ["base", "physfix"] => {
+                cur.embfiles.clear();
                 let d = PathBuf::from(concat!(env!("CARGO_MANIFEST_DIR"), "/fixtures/emb1"));
                 cur.bases.push(Some(Box::new(PhysicalFS::new(&d))));
             }
